@@ -409,7 +409,9 @@ impl Run {
                             Err(p) => Err(p.into_failure(sub)),
                         };
                         match out {
-                            Ok(info) => {
+                            Ok(mut info) => {
+                                info.classes.sort();
+                                info.classes.dedup();
                                 if !failed.get() {
                                     let mut l = local_cell.borrow_mut();
                                     l.evaluations += 1;
